@@ -23,6 +23,6 @@ def construct_function_space_for_adjoint(coords, shapeOnRef, mesh, quadratureRul
     # unpack mesh and remake a mesh to make sure we get all the AD
     mesh = Mesh.Mesh(coords=coords, conns=mesh.conns, simplexNodesOrdinals=mesh.simplexNodesOrdinals,
                      parentElement=mesh.parentElement, parentElement1d=mesh.parentElement1d, blocks=mesh.blocks,
-                     nodeSets=mesh.nodeSets, sideSets=mesh.sideSets)
+                     nodeSets=mesh.nodeSets, sideSets=mesh.sideSets, block_maps=mesh.block_maps)
 
     return FunctionSpace.FunctionSpace(shapes, vols, shapeGrads, mesh, quadratureRule, isAxisymmetric)
